@@ -89,6 +89,19 @@ func (p c04) Gen(r *simhook.Rand, tier string, idx int) harness.Scenario {
 	if r.Chance(1, 4) {
 		sc.Env.FragNum, sc.Env.FragDen = 1, 3
 	}
+	emptyTarget := r.Chance(1, 3)
+	if emptyTarget {
+		// the last master is a freshly added node without slots: the first slots migrate to it
+		per := cluster.NumSlots / (m - 1)
+		for i := 0; i < m-1; i++ {
+			to := (i+1)*per - 1
+			if i == m-2 {
+				to = cluster.NumSlots - 1
+			}
+			sc.Env.Layout = append(sc.Env.Layout, world.SlotRange{From: i * per, To: to, Node: i})
+		}
+		sc.Class = "empty-target"
+	}
 	naff := 1 + r.Intn(3)
 	var keys []string
 	var tags []string
@@ -160,7 +173,11 @@ func (p c04) Gen(r *simhook.Rand, tier string, idx int) harness.Scenario {
 	// migrations of the affected slots
 	for _, tag := range tags {
 		slot := cluster.Slot([]byte("{" + tag + "}:0"))
-		sc.Faults = append(sc.Faults, Fault{Kind: "mig-start", From: slot, Dst: r.Intn(m), AfterSend: r.Intn(250)})
+		dst := r.Intn(m)
+		if emptyTarget {
+			dst = m - 1
+		}
+		sc.Faults = append(sc.Faults, Fault{Kind: "mig-start", From: slot, Dst: dst, AfterSend: r.Intn(250)})
 		if r.Chance(1, 4) {
 			// and back again later
 			sc.Faults = append(sc.Faults, Fault{Kind: "mig-start", From: slot, Dst: r.Intn(m), AfterSend: 250 + r.Intn(400)})
@@ -413,6 +430,23 @@ func (p c04) Run(t *testing.T, s harness.Scenario) harness.Outcome {
 			case porcupine.Illegal:
 				// an error that the model does not produce and that is not admitted makes the history illegal too
 				clause := "linearizable"
+				// would the history be fine if every error reply were "may or may not have happened"?  then the
+				// only thing wrong is an error returned while no owner was unreachable
+				relaxed := make([]porcupine.Operation, len(ops))
+				anyErr := false
+				for i, o := range ops {
+					relaxed[i] = o
+					if o.Output.(resp2.Value).IsErr() {
+						in := o.Input.(c04In)
+						in.indet = true
+						relaxed[i].Input = in
+						relaxed[i].Return = 1 << 60
+						anyErr = true
+					}
+				}
+				if anyErr && porcupine.CheckOperationsTimeout(c04Model(one, false), relaxed, 20*time.Second) == porcupine.Ok {
+					clause = "error-while-owner-reachable"
+				}
 				for _, o := range ops {
 					if atReplica[formKey(o.Input.(c04In).args)] && sc.Env.ReadStrategy == 0 {
 						// under the MASTER read strategy a read was executed by a node that is a replica (a demoted
